@@ -186,6 +186,40 @@ def accessor_rename_leg(rep, tier, cases):
     rep.extra["accessor_rename_runs"] = n
 
 
+def trait_rename_leg(rep, tier, cases):
+    """Pure C shows no renames (its names are the ABI names): a rename that reaches a TRAIT -- written on the trait, or inherited from
+    the bridge module -- leaves the C output byte-identical to the attribute-free program, whatever its condition."""
+    wd = rep.wd
+    rng = random.Random(lib.seed() + 31)
+    def prog(cfg, place):
+        a = ("#[diplomat::attr(%s, rename = \"%s\")]\n" % (cfg, "My{0}" if place == "module" else "Observer")) if cfg else ""
+        return ("#[diplomat::bridge]\n" + (a if place == "module" else "") + "mod ffi {\n" + ("    " + a if place == "trait" else "") +
+                "    pub trait Listener {\n        fn notify(&self, x: u8) -> u8;\n    }\n" + TDECL["opaque"] +
+                "    impl Tee {\n        pub fn run(&self, l: impl Listener) -> u8 { l.notify(1) }\n    }\n}\n")
+    def c_tree(src, tag):
+        p_ = os.path.join(wd, tag + ".rs")
+        open(p_, "w").write(src)
+        o = os.path.join(wd, "out_%s_c" % tag)
+        r = lib.run_tool("c", p_, o)
+        return r["rc"], (observe.read_tree(o) if r["rc"] == 0 else None), r["stderr"][-400:]
+    base = c_tree(prog(None, "trait"), "trn_base")
+    if base[0] != 0:
+        raise lib.ToolError("trait-rename leg: the C backend refuses the base program: " + base[2])
+    forms = ["*", "c", "not(kotlin)"] + [ftext(c["form"]) for c in rng.sample(cases, 2 if tier == "quick" else 12)]
+    n = 0
+    for f in forms:
+        for place in ("trait", "module"):
+            got = c_tree(prog(f, place), "trn_cond")
+            n += 1
+            if got[0] != 0 or got[1] != base[1]:
+                diff = sorted(k for k in set(got[1] or {}) | set(base[1]) if (got[1] or {}).get(k) != base[1].get(k))
+                rep.violation({"leg": "trait-rename", "backend": "c", "place": place, "what": "a rename reaching a trait changes the pure C output"},
+                              {"formula": f, "differing_files": diff[:8], "stderr": got[2], "program": prog(f, place)})
+            rep.nontriv("trait-rename:%s:%s" % (place, f))
+    rep.evaluations += n
+    rep.extra["trait_rename_runs"] = n
+
+
 def allsyms(tkind):
     return {"Tee_m_one", "Tee_m_two", "Tee_m_three", "Uuu_u_one", "Uuu_destroy"} | ({"Tee_destroy"} if tkind == "opaque" else set())
 
@@ -420,5 +454,6 @@ def run(rep, tier):
     placement(rep, tier, cases)
     no_trace(rep, tier, cases)
     accessor_rename_leg(rep, tier, cases)
+    trait_rename_leg(rep, tier, cases)
     exports(rep)
     rep.exhaustive = False
